@@ -103,7 +103,13 @@ func runBinScenario(c Case) interface{} {
 		return obj("harness-error", "VERIF_LAYERCAKE not set")
 	}
 	binSeq++
-	root, err := ioutil.TempDir(scratch, fmt.Sprintf("bin%d-", binSeq))
+	// every other installation lives in a directory with an equals sign in its name: the real
+	// kernel writes it unescaped into the overlay options of mountinfo
+	pattern := fmt.Sprintf("bin%d-", binSeq)
+	if binSeq%2 == 1 {
+		pattern = fmt.Sprintf("bin%d=cake=17.1-", binSeq)
+	}
+	root, err := ioutil.TempDir(scratch, pattern)
 	if err != nil {
 		return obj("harness-error", err.Error())
 	}
